@@ -17,7 +17,7 @@ RULE = ("typeddata.hash(json) events on random well-typed documents (1..8 struct
 REQUIRED = (["digests-equal", "repeat-before", "repeat-between", "repeat-after", "recursive-primary", "shared-dependency(diamond)",
              "negative-int", "array-multidim", "array-fixed", "array-of-structs", "struct-name-atom-lookalike", "deps>=3",
              "primary-not-first-in-name-order", "dep-sorts-before-primary", "empty-struct",
-             "dep-name-is-prefix-of-another(sorts-differently-when-rendered)", "sibling-document(same-signatures-one-dependency-changed)", "hook-encode-type-equal", "hook-member-kind"]
+             "dep-name-is-prefix-of-another(sorts-differently-when-rendered)", "sibling-document(same-signatures-one-dependency-changed)", "struct-name-outside-identifier-grammar", "hook-encode-type-equal", "hook-member-kind"]
             + ["atom-" + a for a in ("bool", "address", "string", "bytes", "bytesN", "uint", "int")]
             + ["domain-fields-%d" % k for k in range(1, 6)])
 LOOKALIKES = {"bytes0", "uint9", "int264", "bytes33", "uint320", "uint256x", "int7", "bytes64"}
@@ -52,6 +52,8 @@ def _features(v, types, primary):
     if any(len(s) >= 2 for s in refs.values()):
         v.bucket("shared-dependency(diamond)")
     for n in reach | {"EIP712Domain"}:
+        if n in tdgen.WEIRD_STRUCT_NAMES:
+            v.bucket("struct-name-outside-identifier-grammar")
         if n in LOOKALIKES:
             v.bucket("struct-name-atom-lookalike")
         if not types[n]:
